@@ -916,7 +916,412 @@ Section Transport.
     apply (async_eq_seq_tree P (erase p) m o HP (tree_erase p Hp) Hnm).
     rewrite <- E. cbn [ecfg c_mode]. fold h s1. rewrite Hm. reflexivity.
   Qed.
+  (* T3 *)
+  Theorem contexts_nest_lifo_rtree0 n :
+    no_unwind P n (start h s1) ->
+    lifo (layers (c_st (run P n (start h s1)))) (layers (c_st (run P (S n) (start h s1)))).
+  Proof.
+    intros Hn. destruct (sim_run P p n Hp Hn) as (m & _ & E & Hnm).
+    pose proof (rh_run P n _ (RHc_start P p Hp)) as Hc. fold h s1 in Hc, E.
+    rewrite run_snoc. destruct (is_final (c_mode (run P n (start h s1)))) eqn:Hf; [exists []; left; rewrite app_nil_r; reflexivity|].
+    destruct (is_readm (c_mode (run P n (start h s1)))) eqn:Hr.
+    - destruct (run P n (start h s1)) as [md fr s]. cbn [c_mode] in Hr.
+      destruct md as [x| | | |t|t q| |o|e|o|]; try discriminate Hr. destruct q; try discriminate Hr.
+      cbn [step c_mode c_frames c_st]. exists []. left. rewrite app_nil_r. reflexivity.
+    - pose proof (contexts_nest_lifo_tree P HP (erase p) (tree_erase p Hp) (wn_erase [] p Hw) m Hnm) as T.
+      rewrite run_snoc in T. rewrite <- E in T. cbn [ecfg c_mode] in T. rewrite is_final_emode, Hf in T.
+      change (mkC (emode (c_mode (run P n (start h s1)))) (map eframe (c_frames (run P n (start h s1)))) (est (c_st (run P n (start h s1)))))
+        with (ecfg (run P n (start h s1))) in T.
+      rewrite (step_est P (run P n (start h s1)) Hr) in T. cbn [ecfg c_st] in T. rewrite !layers_est in T. exact T.
+  Qed.
+
+  (* the save-and-restore invariant *)
+  Theorem saved_values_rtree0 n :
+    no_unwind P n (start h s1) ->
+    match c_mode (run P n (start h s1)) with
+    | MUnwind _ | MStuck | MDone _ => True
+    | _ => vars_ok (fun x => var_get x s1) (c_st (run P n (start h s1)))
+    end.
+  Proof.
+    intros Hn. destruct (sim_run P p n Hp Hn) as (m & _ & E & Hnm).
+    pose proof (saved_values_tree P HP (erase p) (tree_erase p Hp) (wn_erase [] p Hw) m Hnm) as T.
+    rewrite <- E in T. cbn [ecfg c_st c_mode] in T. fold h s1 in T.
+    assert (V : forall s, vars_ok (fun x => var_get x s1) (est s) -> vars_ok (fun x => var_get x s1) s).
+    { intros s. unfold vars_ok, VOs. rewrite layers_est. intros H. exact H. }
+    destruct (c_mode (run P n (start h s1))); cbn [emode] in T; try exact I; apply V; exact T.
+  Qed.
 End Transport.
+
+Lemma reach_est s u t : reach (est s) u t -> reach s u t.
+Proof.
+  intros H. induction H as [|y tk' z Hr IH Hg Hin]; [apply reach_refl|].
+  apply get_est_inv in Hg as (tk & Hg & ->). exact (reach_dep s u y tk z IH Hg Hin).
+Qed.
+
+(* the owners of the lower layers await the running task (needs rtree0 p only) *)
+Theorem layer_owners_await_rtree0 P p n t q :
+  pointwise P -> rtree0 p ->
+  let h := fst (create [] (FTask p) (st0 P)) in
+  let s1 := snd (create [] (FTask p) (st0 P)) in
+  no_unwind P n (start h s1) -> c_mode (run P n (start h s1)) = MRun t q ->
+  let s := c_st (run P n (start h s1)) in
+  forall rest, tasks s = t :: rest -> forall u c, In (u, c) (lower s rest) -> reach s u t.
+Proof.
+  intros HP Hp. cbn zeta. intros Hn Hm rest Hts u c Hin.
+  destruct (sim_run P p n Hp Hn) as (m & _ & E & Hnm).
+  assert (Hmq : c_mode (run P m (start (fst (create [] (FTask (erase p)) (st0 P))) (snd (create [] (FTask (erase p)) (st0 P))))) = MRun t (erase q)).
+  { rewrite <- E. cbn [ecfg c_mode]. rewrite Hm. reflexivity. }
+  pose proof (layer_owners_await_tree P HP (erase p) (tree_erase p Hp) m t (erase q) Hnm Hmq) as T. cbn zeta in T.
+  rewrite <- E in T. cbn [ecfg c_st] in T. apply reach_est. apply (T rest Hts u c). rewrite lower_est. exact Hin.
+Qed.
+
+
+(* ================================================================== synchronous calls: stree + non-branching reads *)
+Inductive rstree0 : prog -> Prop :=
+| rstree0_ret v : rstree0 (Ret v)
+| rstree0_result v : rstree0 (Result v)
+| rstree0_raise e : rstree0 (Raise e)
+| rstree0_yield s k : (forall l, In l (leaves s) -> rstree0_leaf l) -> (forall o, rstree0 (k o)) -> rstree0 (Yield s k)
+| rstree0_enter c k : plain_ctx c = true -> rstree0 k -> rstree0 (Enter c k)
+| rstree0_exit c k : plain_ctx c = true -> rstree0 k -> rstree0 (Exit c k)
+| rstree0_read var k : (forall v, rstree0 (k v)) -> (forall v v', k v = k v') -> rstree0 (ReadVar var k)
+| rstree0_call q k : rstree0 q -> (forall o, rstree0 (k o)) -> rstree0 (Let (FTask q) (fun h => Sync h k))
+with rstree0_leaf : leaf -> Prop :=
+| rsl0_new f : rstree0_fexpr f -> rstree0_leaf (LNew f)
+| rsl0_bad : rstree0_leaf LBad
+with rstree0_fexpr : fexpr -> Prop :=
+| sf0_task p : rstree0 p -> rstree0_fexpr (FTask p)
+| sf0_item kind key a : rstree0_fexpr (FItem kind key a)
+| sf0_const v : rstree0_fexpr (FConst v)
+| sf0_error e : rstree0_fexpr (FError e)
+| sf0_lazy o : rstree0_fexpr (FLazy o).
+
+Scheme rstree0_mut := Minimality for rstree0 Sort Prop
+with rstree0_leaf_mut := Minimality for rstree0_leaf Sort Prop
+with rstree0_fexpr_mut := Minimality for rstree0_fexpr Sort Prop.
+
+Lemma stree_erase p : rstree0 p -> stree (erase p).
+Proof.
+  apply (rstree0_mut (fun p => stree (erase p)) (fun l => stree_leaf (erase_leaf l)) (fun f => stree_fexpr (erase_fexpr f)));
+    cbn [erase erase_leaf erase_fexpr]; intros; try (constructor; auto; fail).
+  - apply st_yield; [|auto]. intros l Hin. rewrite leaves_ymap in Hin. apply in_map_iff in Hin as (a & <- & Ha). auto.
+  - auto.
+Qed.
+
+Lemma rstree0_read_const var k v : rstree0 (ReadVar var k) -> erase (k v) = erase (ReadVar var k).
+Proof. intros H. inversion H as [| | | | | |var' k' Hk Hc|]; subst. cbn [erase]. rewrite (Hc v (VInt 0)). reflexivity. Qed.
+
+Definition sgen_ok (tk : task) : Prop := forall k, tk_gen tk = Some k -> forall o, rstree0 (k o).
+
+Definition sfut_ok (f : fut) : Prop :=
+  match f_kind f with
+  | KTask tk => sgen_ok tk
+  | _ => True
+  end.
+
+Definition SHh (s : st) : Prop := forall u f, get u s = Some f -> sfut_ok f.
+
+Lemma SHh_view s s' : heap s' = heap s -> SHh s -> SHh s'.
+Proof. intros Hh Hs u f Hg. apply (Hs u f). unfold get in *. rewrite <- Hh. exact Hg. Qed.
+
+Lemma SHh_put u f s : sfut_ok f -> SHh s -> SHh (put u f s).
+Proof.
+  intros Hf Hs u0 f0 Hg. destruct (fid_eqb u0 u) eqn:E.
+  - apply fid_eqb_eq in E. subst u0. rewrite get_put_same in Hg. inversion Hg; subst f0. exact Hf.
+  - rewrite get_put_other in Hg by (intros ->; rewrite fid_eqb_refl in E; discriminate). apply (Hs u0 f0 Hg).
+Qed.
+
+Lemma SHh_set_task t tk s : sgen_ok tk -> SHh s -> SHh (set_task t tk s).
+Proof. intros Hk Hs. unfold set_task. destruct (get t s); [apply SHh_put; [exact Hk|exact Hs]|exact Hs]. Qed.
+
+Lemma SHh_gen s x o tk : SHh s -> get x s = Some (mkFut o (KTask tk)) -> sgen_ok tk.
+Proof. intros Hs Hg. exact (Hs x _ Hg). Qed.
+
+Lemma SHh_gen_task s x tk : SHh s -> get_task x s = Some tk -> sgen_ok tk.
+Proof. intros Hs Hg. apply get_task_some in Hg as (o & Hg). exact (SHh_gen s x o tk Hs Hg). Qed.
+
+Lemma sgen_ok_ctxs tk cs a : sgen_ok tk -> sgen_ok (tk_with_ctxs tk cs a).
+Proof. intros H. exact H. Qed.
+
+Lemma sgen_ok_ds tk b : sgen_ok tk -> sgen_ok (tk_set_ds tk b).
+Proof. intros H. exact H. Qed.
+
+Lemma sgen_ok_none a b c d e f g : sgen_ok (mkTask None a b c d e f g).
+Proof. intros k Hk. discriminate. Qed.
+
+Lemma SHh_enter_ctx x c s : SHh s -> SHh (enter_ctx x c s).
+Proof.
+  intros Hs. unfold enter_ctx.
+  assert (H : SHh (match get_task x s with
+                   | Some tk => set_task x (tk_with_ctxs tk (tk_ctxs tk ++ [c]) (tk_cact tk)) s
+                   | None => s end)).
+  { destruct (get_task x s) as [tk|] eqn:G; [|exact Hs]. apply SHh_set_task; [|exact Hs].
+    apply sgen_ok_ctxs. exact (SHh_gen_task s x tk Hs G). }
+  destruct c; (eapply SHh_view; [|exact H]); reflexivity.
+Qed.
+
+Lemma SHh_exit_ctx x c s : SHh s -> SHh (exit_ctx x c s).
+Proof.
+  intros Hs. unfold exit_ctx. destruct (get_task x s) as [tk|] eqn:G.
+  - assert (H : SHh (set_task x (tk_with_ctxs tk (remove_ctx c (tk_ctxs tk)) (tk_cact tk)) s)).
+    { apply SHh_set_task; [|exact Hs]. apply sgen_ok_ctxs. exact (SHh_gen_task s x tk Hs G). }
+    destruct (tk_cact tk); [|exact H]. destruct c; (eapply SHh_view; [|exact H]); reflexivity.
+  - destruct c; (eapply SHh_view; [|exact Hs]); reflexivity.
+Qed.
+
+Lemma SHh_fold {X} (f : st -> X -> st) l : (forall s x, SHh s -> SHh (f s x)) -> forall s, SHh s -> SHh (fold_left f l s).
+Proof. intros H. induction l as [|x l IH]; intros s Hs; cbn; [exact Hs|]. apply IH, H, Hs. Qed.
+
+Lemma SHh_fold_pair {X E} (f : st * E -> X -> st * E) l :
+  (forall a x, SHh (fst a) -> SHh (fst (f a x))) -> forall a, SHh (fst a) -> SHh (fst (fold_left f l a)).
+Proof. intros H. induction l as [|x l IH]; intros a Ha; cbn; [exact Ha|]. apply IH, H, Ha. Qed.
+
+Lemma SHh_complete_task x o s : SHh s -> SHh (complete_task x o s).
+Proof.
+  intros Hs. unfold complete_task. destruct (get_task x s) as [tk|]; [|exact Hs].
+  assert (H : SHh (match tk_gen tk with
+                   | Some _ => fold_left (fun s c => exit_ctx x c s) (rev (tk_ctxs tk)) s
+                   | None => s end)).
+  { destruct (tk_gen tk); [|exact Hs]. apply SHh_fold; [|exact Hs]. intros s0 c0 H0. apply SHh_exit_ctx. exact H0. }
+  destruct (get_task x _) as [tk1|]; [|exact H].
+  match goal with |- SHh (emit ?e ?z) => apply (SHh_view z); [reflexivity|] end.
+  apply SHh_put; [apply sgen_ok_none|exact H].
+Qed.
+
+Lemma SHh_accept_error x e s : SHh s -> SHh (accept_error x e s).
+Proof. intros Hs. unfold accept_error. destruct (computed x s); [exact Hs|apply SHh_complete_task; exact Hs]. Qed.
+
+Lemma SHh_resume_contexts x s : SHh s -> SHh (resume_contexts x s).
+Proof.
+  intros Hs. unfold resume_contexts. destruct (get_task x s) as [tk|] eqn:G; [|exact Hs].
+  destruct (tk_cact tk); [exact Hs|].
+  match goal with |- context [fold_left ?f ?l ?a] => assert (H2 : SHh (fst (fold_left f l a))) end.
+  { apply SHh_fold_pair.
+    - intros [s0 e0] c H0. cbn [fst] in *. pose proof (heap_resume1 x c s0) as Rr. destruct (resume1 x c s0). cbn [fst] in *.
+      apply (SHh_view s0); [exact Rr|exact H0].
+    - cbn [fst]. apply SHh_set_task; [|exact Hs]. apply sgen_ok_ctxs. exact (SHh_gen_task s x tk Hs G). }
+  match goal with |- context [fold_left ?f ?l ?a] => destruct (fold_left f l a) as [s1 [e|]] end;
+    cbn [fst] in H2; [apply SHh_accept_error; exact H2|exact H2].
+Qed.
+
+Lemma SHh_pause_contexts x s : SHh s -> SHh (pause_contexts x s).
+Proof.
+  intros Hs. unfold pause_contexts. destruct (get_task x s) as [tk|] eqn:G; [|exact Hs].
+  destruct (negb (tk_cact tk)); [exact Hs|].
+  match goal with |- context [fold_left ?f ?l ?a] => assert (H2 : SHh (fst (fold_left f l a))) end.
+  { apply SHh_fold_pair.
+    - intros [s0 e0] c H0. cbn [fst] in *. pose proof (heap_pause1 x c s0) as Rr. destruct (pause1 x c s0). cbn [fst] in *.
+      apply (SHh_view s0); [exact Rr|exact H0].
+    - cbn [fst]. apply SHh_set_task; [|exact Hs]. apply sgen_ok_ctxs. exact (SHh_gen_task s x tk Hs G). }
+  match goal with |- context [fold_left ?f ?l ?a] => destruct (fold_left f l a) as [s1 [e|]] end;
+    cbn [fst] in H2; [apply SHh_accept_error; exact H2|exact H2].
+Qed.
+
+Lemma SHh_kback s s' : kback s s' -> SHh s -> SHh s'.
+Proof.
+  intros K Hs u f' Hg. destruct (K u f' Hg) as (f & Hf & Ek & _). pose proof (Hs u f Hf) as H.
+  unfold sfut_ok in *. rewrite Ek. exact H.
+Qed.
+
+Lemma SHh_flush_batch P k s : SHh s -> SHh (flush_batch P k s).
+Proof. apply SHh_kback, kback_flush_batch. Qed.
+
+Lemma SHh_cwb P s : SHh s -> SHh (continue_with_batch P s).
+Proof. apply SHh_kback, kback_cwb. Qed.
+
+Lemma SHh_schedule_batch k s : SHh s -> SHh (schedule_batch k s).
+Proof. intros Hs. unfold schedule_batch. destruct (b_done _); [exact Hs|]. destruct (existsb _ _); exact Hs. Qed.
+
+Lemma SHh_create parent f s : rstree0_fexpr f -> SHh s -> SHh (snd (create parent f s)).
+Proof.
+  intros Hf Hs. unfold create, alloc. cbn zeta.
+  assert (H1 : SHh (with_top_next s (top_next s + 1))) by (apply (SHh_view s); [reflexivity|exact Hs]).
+  destruct Hf as [q Hq|kind key a|v|e|o]; cbn [snd]; [| apply (SHh_view (put [top_next s] (mkFut None (KItem kind (cur_idx kind (with_top_next s (top_next s + 1))) key a)) (with_top_next s (top_next s + 1)))); [reflexivity|] | | |]; apply SHh_put; try exact H1; try exact I.
+  intros k E o. cbn in E. inversion E; subst k. exact Hq.
+Qed.
+
+Lemma SHh_inst parent y : forall s, (forall l, In l (leaves y) -> rstree0_leaf l) -> SHh s -> SHh (snd (inst parent y s)).
+Proof.
+  induction y as [| a | l IH | l IH | l IH] using ystruct_ind2; intros s Hl Hs.
+  - exact Hs.
+  - destruct a as [f|h0|]; simpl; try exact Hs.
+    assert (Hf : rstree0_fexpr f) by (specialize (Hl (LNew f) (or_introl eq_refl)); inversion Hl; assumption).
+    pose proof (SHh_create parent f s Hf Hs) as H. destruct (create parent f s). exact H.
+  - rewrite leaves_tuple in Hl. simpl. match goal with |- context [(?g l s)] => set (go := g) end.
+    assert (H : forall s, (forall x, In x (flat_map leaves l) -> rstree0_leaf x) -> SHh s -> SHh (snd (go l s))).
+    { clear s Hl Hs. induction IH as [|x l Hx Hl' IHl]; intros s Hl Hs; [exact Hs|]. simpl. cbn [flat_map] in Hl.
+      specialize (Hx s (fun z Hz => Hl z (in_or_app _ _ _ (or_introl Hz))) Hs). destruct (inst parent x s) as [x' s1]. cbn [snd] in Hx.
+      specialize (IHl s1 (fun z Hz => Hl z (in_or_app _ _ _ (or_intror Hz))) Hx). destruct (go l s1) as [l'' s2]. cbn [snd] in *. exact IHl. }
+    specialize (H s Hl Hs). destruct (go l s). exact H.
+  - rewrite leaves_ylist in Hl. simpl. match goal with |- context [(?g l s)] => set (go := g) end.
+    assert (H : forall s, (forall x, In x (flat_map leaves l) -> rstree0_leaf x) -> SHh s -> SHh (snd (go l s))).
+    { clear s Hl Hs. induction IH as [|x l Hx Hl' IHl]; intros s Hl Hs; [exact Hs|]. simpl. cbn [flat_map] in Hl.
+      specialize (Hx s (fun z Hz => Hl z (in_or_app _ _ _ (or_introl Hz))) Hs). destruct (inst parent x s) as [x' s1]. cbn [snd] in Hx.
+      specialize (IHl s1 (fun z Hz => Hl z (in_or_app _ _ _ (or_intror Hz))) Hx). destruct (go l s1) as [l'' s2]. cbn [snd] in *. exact IHl. }
+    specialize (H s Hl Hs). destruct (go l s). exact H.
+  - rewrite leaves_ydict in Hl. simpl. match goal with |- context [(?g l s)] => set (go := g) end.
+    assert (H : forall s, (forall x, In x (flat_map (fun kv => leaves (snd kv)) l) -> rstree0_leaf x) -> SHh s -> SHh (snd (go l s))).
+    { clear s Hl Hs. induction IH as [|[k x] l Hx Hl' IHl]; intros s Hl Hs; [exact Hs|]. simpl. cbn [flat_map snd] in Hl. cbn [snd] in Hx.
+      specialize (Hx s (fun z Hz => Hl z (in_or_app _ _ _ (or_introl Hz))) Hs). destruct (inst parent x s) as [x' s1]. cbn [snd] in Hx.
+      specialize (IHl s1 (fun z Hz => Hl z (in_or_app _ _ _ (or_intror Hz))) Hx). destruct (go l s1) as [l'' s2]. cbn [snd] in *. exact IHl. }
+    specialize (H s Hl Hs). destruct (go l s). exact H.
+Qed.
+
+(* no frame of a synchronous call *)
+Definition sfr_ok (fr : list frame) : Prop := forall t k, In (FValue t k) fr -> forall o, rstree0 (k o).
+Definition smode_ok (p : prog) : Prop := rstree0 p \/ exists h k, p = Sync h k /\ forall o, rstree0 (k o).
+
+Definition SHc (c : cfg) : Prop :=
+  SHh (c_st c) /\ sfr_ok (c_frames c) /\ match c_mode c with MRun _ p => smode_ok p | _ => True end.
+
+Ltac sni :=
+  repeat match goal with
+  | H : SHh ?s |- SHh ?s => exact H
+  | |- SHh (emit _ ?X) => apply (SHh_view X); [reflexivity|]
+  | |- SHh (pop_task ?X) => apply (SHh_view X); [reflexivity|]
+  | |- SHh (with_tasks ?X _) => apply (SHh_view X); [reflexivity|]
+  | |- SHh (with_active ?X _) => apply (SHh_view X); [reflexivity|]
+  | |- SHh (reset_sched ?X) => apply (SHh_view X); [reflexivity|]
+  | |- SHh (drop_sb ?X) => apply (SHh_view X); [apply heap_drop_sb|]
+  | |- SHh (schedule_batch _ _) => apply SHh_schedule_batch
+  | |- SHh (resume_contexts _ _) => apply SHh_resume_contexts
+  | |- SHh (pause_contexts _ _) => apply SHh_pause_contexts
+  | |- SHh (complete_task _ _ _) => apply SHh_complete_task
+  | |- SHh (accept_error _ _ _) => apply SHh_accept_error
+  | |- SHh (enter_ctx _ _ _) => apply SHh_enter_ctx
+  | |- SHh (exit_ctx _ _ _) => apply SHh_exit_ctx
+  | |- SHh (flush_batch _ _ _) => apply SHh_flush_batch
+  | |- SHh (continue_with_batch _ _) => apply SHh_cwb
+  | |- SHh (put _ (mkFut _ (KLazy _)) _) => apply SHh_put; [exact I|]
+  | |- SHh (set_task _ (mkTask None _ _ _ _ _ _ _) _) => apply SHh_set_task; [apply sgen_ok_none|]
+  | |- SHh (match get_task ?t ?s with Some _ => _ | None => _ end) => destruct (get_task t s) eqn:?
+  | Hs : SHh ?s, G : get ?x ?s = Some (mkFut _ (KTask ?tk)) |- SHh (set_task _ (tk_set_ds ?tk _) _) =>
+      apply SHh_set_task; [apply sgen_ok_ds; exact (SHh_gen s x _ tk Hs G)|]
+  end.
+
+Ltac ssplit_matches :=
+  repeat match goal with
+  | |- SHc (if ?x then _ else _) => destruct x eqn:?
+  | |- SHc (match ?x with _ => _ end) => destruct x eqn:?
+  | |- SHc (let '(_, _) := ?x in _) => destruct x eqn:?
+  end.
+
+Ltac sfin Hfr :=
+  (split; [cbn [c_st]; sni|split; [cbn [c_frames];
+     first [exact Hfr | solve [intros t0 k0 []]
+           | intros t0 k0 Hin0; apply (Hfr t0 k0); cbn; auto; fail
+           | intros t0 k0 Hin0; cbn in Hin0; destruct Hin0 as [E0|Hin0]; [discriminate E0|apply (Hfr t0 k0); cbn; auto]]
+    |try exact I; try (left; apply (Hfr _ _ (or_introl eq_refl)))]]).
+
+Lemma sh_step P c : SHc c -> SHc (step P c).
+Proof.
+  destruct c as [m fr s]. intros (Hh & Hfr & Hm). cbn [c_mode c_frames c_st] in Hh, Hfr, Hm.
+  destruct m as [h| | | |t|t p| |o|e|o|].
+  - (* MValue *) cbn [step c_mode c_frames c_st]. ssplit_matches; sfin Hfr.
+  - (* MWaitHead *) cbn [step c_mode c_frames c_st]. ssplit_matches; sfin Hfr.
+  - (* MAfterExec *) cbn [step c_mode c_frames c_st]. ssplit_matches; sfin Hfr.
+  - (* MExecLoop *) cbn [step c_mode c_frames c_st]. ssplit_matches; sfin Hfr.
+  - (* MResume *) cbn [step c_mode c_frames c_st]. destruct (get_task t s) as [tk|] eqn:G; [|sfin Hfr].
+    pose proof (SHh_gen_task s t tk Hh G) as Hk.
+    destruct (tk_gen tk) as [k|] eqn:Ek.
+    + split; [|split; [exact Hfr|left; exact (Hk k Ek _)]]. cbn [c_st]. sni. apply SHh_set_task; [|exact Hh].
+      intros k0 E0 o0. cbn in E0. inversion E0; subst k0. exact (Hk k Ek o0).
+    + ssplit_matches; sfin Hfr.
+  - (* MRun *) destruct Hm as [Hm|(h0 & k0 & -> & Hk0)].
+    2:{ cbn [step c_mode c_frames c_st]. split; [exact Hh|split; [|exact I]]. cbn [c_frames].
+        intros t1 k1 [E|Hin]; [inversion E; subst; exact Hk0|exact (Hfr t1 k1 Hin)]. }
+    destruct Hm as [v|v|e|y k Hl Hk|c k Hc Hk|c k Hc Hk|var k Hk Hcst|q k Hq Hk]; cbn [step c_mode c_frames c_st].
+    + ssplit_matches; sfin Hfr.
+    + ssplit_matches; sfin Hfr.
+    + sfin Hfr.
+    + pose proof (SHh_inst t y s Hl Hh) as Hi. destruct (inst t y s) as [y' si]. cbn [snd] in Hi.
+      destruct (get_task t si) as [tk|] eqn:G; [|sfin Hfr].
+      assert (H2 : SHh (set_task t (mkTask (Some k) y' (tk_deps tk ++ futs (extract y')) (tk_ctxs tk) (tk_cact tk) (tk_ds tk) (tk_iter tk) (tk_next tk)) si)).
+      { apply SHh_set_task; [|exact Hi]. intros k0 E0 o0. cbn in E0. inversion E0; subst k0. exact (Hk o0). }
+      destruct (futs (extract y')); (split; [exact H2|split; [exact Hfr|exact I]]).
+    + split; [cbn [c_st]; sni|split; [exact Hfr|left; exact Hk]].
+    + split; [cbn [c_st]; sni|split; [exact Hfr|left; exact Hk]].
+    + split; [cbn [c_st]; sni|split; [exact Hfr|left; apply Hk]].
+    + pose proof (SHh_create t (FTask q) s (sf0_task q Hq) Hh) as Hcr. destruct (create t (FTask q) s) as [h1 sc]. cbn [snd] in Hcr.
+      split; [exact Hcr|split; [exact Hfr|right; exists h1, k; split; [reflexivity|exact Hk]]].
+  - (* MContRet *) cbn [step c_mode c_frames c_st]. destruct fr as [|[| | | |t old] fr']; try (sfin Hfr).
+    assert (Ha : SHh (with_active s old)) by (apply (SHh_view s); [reflexivity|exact Hh]).
+    apply SHh_set_task; [|exact Ha]. apply sgen_ok_ds.
+    match goal with G : get_task t (with_active s old) = Some ?tk |- _ => exact (SHh_gen_task _ t tk Ha G) end.
+  - (* MDeliver *) cbn [step c_mode c_frames c_st]. destruct fr as [|[| | | |] fr']; sfin Hfr.
+  - (* MUnwind *) cbn [step c_mode c_frames c_st]. destruct fr as [|[| | | |] fr']; sfin Hfr.
+  - exact (conj Hh (conj Hfr I)).
+  - exact (conj Hh (conj Hfr I)).
+Qed.
+
+Lemma sh_run P n : forall c, SHc c -> SHc (run P n c).
+Proof.
+  induction n as [|n IH]; intros c Hc; [exact Hc|]. rewrite run_S.
+  destruct (is_final (c_mode c)); [exact Hc|]. apply IH, sh_step, Hc.
+Qed.
+
+Lemma SHh_st0 P : SHh (st0 P).
+Proof. intros u f Hg. cbn in Hg. discriminate. Qed.
+
+Lemma SHc_start P p : rstree0 p ->
+  SHc (start (fst (create [] (FTask p) (st0 P))) (snd (create [] (FTask p) (st0 P)))).
+Proof.
+  intros Hp. split; [|split; [intros t0 k0 [E|[]]; discriminate E|exact I]]. cbn [start c_st].
+  apply SHh_create; [apply sf0_task; exact Hp|apply SHh_st0].
+Qed.
+
+(* the simulation for rstree0 runs (same proof as run_est; step_est holds for every program) *)
+Lemma run_est_s P : forall n c, SHc c ->
+  exists m, (m <= n)%nat /\ ecfg (run P n c) = run P m (ecfg c) /\
+    forall k, (k <= m)%nat -> exists j, (j <= n)%nat /\ run P k (ecfg c) = ecfg (run P j c).
+Proof.
+  induction n as [|n IH]; intros c Hc.
+  - exists O. split; [lia|]. split; [reflexivity|]. intros k Hk. exists O. split; [lia|].
+    replace k with O by lia. reflexivity.
+  - rewrite run_S. destruct (is_final (c_mode c)) eqn:Hf.
+    + exists O. split; [lia|]. split; [reflexivity|]. intros k Hk. exists O. split; [lia|].
+      replace k with O by lia. reflexivity.
+    + destruct (IH (step P c) (sh_step P c Hc)) as (m & Hm & E & Hpre).
+      destruct (is_readm (c_mode c)) eqn:Hr.
+      * assert (Es : ecfg (step P c) = ecfg c).
+        { destruct c as [md fr s]. cbn [c_mode] in Hr. destruct md as [h| | | |t|t p| |o|e|o|]; try discriminate Hr.
+          destruct p; try discriminate Hr. destruct Hc as (_ & _ & [Hq|(h0 & k0 & E0 & _)]); [|discriminate E0].
+          cbn [step c_mode c_frames c_st]. unfold ecfg. cbn [c_mode c_frames c_st emode].
+          rewrite (rstree0_read_const _ _ _ Hq). reflexivity. }
+        rewrite Es in E, Hpre. exists m. split; [lia|]. split; [exact E|].
+        intros k Hk. destruct (Hpre k Hk) as (j & Hj & Ej). exists (S j). split; [lia|].
+        rewrite run_S, Hf. exact Ej.
+      * rewrite <- (step_est P c Hr) in E, Hpre.
+        assert (Hfe : is_final (c_mode (ecfg c)) = false) by (cbn [ecfg c_mode]; rewrite is_final_emode; exact Hf).
+        exists (S m). split; [lia|]. split; [rewrite run_S, Hfe; exact E|].
+        intros k Hk. destruct k as [|k]; [exists O; split; [lia|reflexivity]|].
+        destruct (Hpre k ltac:(lia)) as (j & Hj & Ej). exists (S j). split; [lia|].
+        rewrite run_S, Hfe, run_S, Hf. exact Ej.
+Qed.
+
+Lemma sim_run_s P p n : rstree0 p ->
+  let c0 := start (fst (create [] (FTask p) (st0 P))) (snd (create [] (FTask p) (st0 P))) in
+  let d0 := start (fst (create [] (FTask (erase p)) (st0 P))) (snd (create [] (FTask (erase p)) (st0 P))) in
+  no_unwind P n c0 ->
+  exists m, (m <= n)%nat /\ ecfg (run P n c0) = run P m d0 /\ no_unwind P m d0.
+Proof.
+  intros Hp c0 d0 Hn. destruct (run_est_s P n c0 (SHc_start P p Hp)) as (m & Hm & E & Hpre).
+  change (ecfg c0) with d0 in E, Hpre. exists m. split; [exact Hm|]. split; [exact E|].
+  intros k Hk. destruct (Hpre k Hk) as (j & Hj & Ej). rewrite Ej. cbn [ecfg c_mode]. rewrite is_unwind_emode.
+  apply Hn. exact Hj.
+Qed.
+
+(* C01S: value() = evals (erase p) *)
+Theorem async_eq_seq_rstree0 P p n o :
+  pointwise P -> rstree0 p ->
+  let h := fst (create [] (FTask p) (st0 P)) in
+  let s1 := snd (create [] (FTask p) (st0 P)) in
+  no_unwind P n (start h s1) -> c_mode (run P n (start h s1)) = MDone o -> o = evals (erase p).
+Proof.
+  intros HP Hp. cbn zeta. intros Hn Hm. destruct (sim_run_s P p n Hp Hn) as (m & _ & E & Hnm).
+  apply (async_eq_seq_stree P (erase p) m o HP (stree_erase p Hp) Hnm).
+  rewrite <- E. cbn [ecfg c_mode]. rewrite Hm. reflexivity.
+Qed.
 
 (* ------------------------------------------------------------------ non-vacuity: a concrete run with reads *)
 Definition c07r_fin (o : outcome) : prog := match o with Ok v => Ret v | Err e => Raise e end.
